@@ -183,3 +183,14 @@ Theorem C07_path_info_decodes : forall segs trail,
   split_path_info (text_path segs trail) = segs.
 Proof. exact path_info_decodes. Qed.
 Print Assumptions C07_path_info_decodes.
+
+(* the executable spec the harness judges the implementation with ([spec_obs], extracted next to the model)
+   demands, observation by observation, only what the model of the repaired code delivers
+   (meets: equality; for the ResourceURL observation, equality of the virtual path) -- outside the
+   scheme-like class for the two relative lookups (observations 4 and 6) *)
+Theorem C07_spec_obs_sound : forall c i sv,
+  nth_error (spec_obs c) i = Some sv -> sv <> none_val ->
+  (i = 4 \/ i = 6 -> scheme_like (c_rel c) = false) ->
+  exists mv, nth_error (model_obs UrlTupleCompare c) i = Some mv /\ meets i mv sv.
+Proof. exact spec_obs_sound. Qed.
+Print Assumptions C07_spec_obs_sound.
